@@ -63,6 +63,9 @@ def side_of(stack, facts):
         for fn, file, line in stack:
             if "protolambda/zrnt" in fn:
                 return ("?", "?", fn.split("/")[-1])
+        # the harness reading what a call returned (an alias of guarded memory used by the caller outside the lock)
+        if any("internal/conc.touch" in fn or "internal/conc.init.func" in fn or "internal/conc.ReflectOp" in fn for fn, _, _ in stack):
+            return ("caller", "returned-alias", "use")
         return None
     typ, meth, line = hits[0]
     outer = [h for h in hits if h[0] == typ][-1][1]
@@ -180,10 +183,12 @@ def lean_failures(log):
 
 
 def build_conc(log):
+    """zrnt's packages are compiled without inlining so that every method of a shared type keeps its own frame in
+    the race detector's stacks (the reports are attributed to (type, field, method) through those frames)."""
     core.point_gomod_at_repo()
     with core.Lock():
         t0 = time.time()
-        rc, out = core.sh(["go", "build", "-race", "-tags", "verif", "-o", CONC, "./cmd/conc"], cwd=core.GO, env=core.GOENV, timeout=1800)
+        rc, out = core.sh(["go", "build", "-race", "-gcflags=github.com/protolambda/zrnt/...=-l", "-tags", "verif", "-o", CONC, "./cmd/conc"], cwd=core.GO, env=core.GOENV, timeout=1800)
         log(f"go build -race ./cmd/conc: rc={rc} in {time.time()-t0:.1f}s")
     return rc == 0, out
 
@@ -227,6 +232,7 @@ def custom(ctx):
         broken.append(dict(what="C17 lock-fact reporter", detail=err))
     cov["failing_rows"] = fails
     to = "3000" if not thorough else "6000"
+    pending = []   # failing rows whose targeted replay did not manifest; dropped if the stress run exhibits them
     for f in fails:
         T, M, thm, kind, field, other = f["type"], f["method"], f["theorem"], f["kind"], f.get("field", ""), f.get("other", "")
         found = []
@@ -275,8 +281,8 @@ def custom(ctx):
             for d in sorted(set(found)):
                 add_violation(d, [json.dumps(schedule)])
         else:
-            add_violation(f"theorem {thm} fails on {T}.{M}" + (f" (field {field})" if field else "") + ": the model schedule did not manifest on the real code in this run",
-                          [json.dumps(schedule)], no_input=True)
+            pending.append((T, M, field, f"theorem {thm} fails on {T}.{M}" + (f" (field {field})" if field else "") +
+                            ": the model schedule did not manifest on the real code in this run", [json.dumps(schedule)]))
 
     # ---- 2. stress: every shared component, race mode (no harness synchronisation) and linearizability mode
     g = "8" if not thorough else "16"
@@ -287,7 +293,7 @@ def custom(ctx):
     calls = 0
     stats_all = {}
     for comp, cmd, extra in plan:
-        r = run_conc([cmd, comp] + extra, work, f"{cmd}-{comp}", 900 if not thorough else 3600)
+        r = run_conc([cmd, comp] + extra, work, f"{cmd}-{comp}", 300 if not thorough else 1800)
         ds, n, raw = parse_race_logs(r["logs"], facts)
         cov["race_reports"] += n
         st = {}
@@ -321,6 +327,11 @@ def custom(ctx):
         if cmd == "stress-lin":
             samples.append(dict(run=r["cmd"], result=[l for l in r["lines"] if not l.startswith("stat")][:4], stats=st))
 
+    for T, M, field, desc, replay in pending:
+        if any((f"{T}.{M}" in v["descriptor"] or (field and f"{T}.{field}" in v["descriptor"])) and not v["no_input"] for v in violations):
+            continue
+        add_violation(desc, replay, no_input=True)
+
     # what the run exercised, measured
     lst = run_conc(["list"], work, "list", 120)
     ops = [l.split(" ", 1)[1] for l in lst["lines"] if l.startswith("op ")]
@@ -339,6 +350,51 @@ def custom(ctx):
                      "a shared instance from several goroutines at once",
                 samples=samples,
                 input_distribution=dict(conc={k: {"calls": v} for k, v in stats_all.items()}))
+
+
+def replay(prop, payload, path, work, log):
+    """./check C17 --replay <file>: re-run the commands recorded in the replay file against the current /repo and
+    report whether the same kind of violation shows again (timing-dependent ones are tried several times)."""
+    cmds = []
+    for op in payload.get("ops", []):
+        if not isinstance(op, str):
+            continue
+        if op.startswith("{"):
+            try:
+                cmds += json.loads(op).get("commands", [])
+            except Exception:
+                pass
+        elif op.startswith("conc-race "):
+            cmds.append(op)
+    want = payload.get("descriptor", "")
+    kind = want.split(":", 1)[0]
+    print(f"replay of: {want}")
+    if not cmds:
+        print("replay: this file names a discipline theorem that no longer holds of the regenerated lock facts and no run that exhibits it; re-run ./check", prop)
+        return 1
+    with core.Lock():
+        core.regen(log)
+    ok, out = build_conc(log)
+    if not ok:
+        print("replay: the race-instrumented program does not build:\n" + out[-1500:])
+        return 1
+    facts = load_facts()
+    for attempt in range(3):
+        for i, c in enumerate(cmds):
+            r = run_conc(c.split(" ")[1:], work, f"replay{attempt}-{i}", 900)
+            ds, n, raw = parse_race_logs(r["logs"], facts)
+            seen = ds + [l.split(" ", 1)[1] for l in r["lines"] if l.startswith("violation ")]
+            seen += [f"deadlock: {l.split(' ', 1)[1]} blocks forever" for l in r["lines"] if l.startswith("blocked ")]
+            if r["fatal"]:
+                seen.append(r["fatal"])
+            print(f"  {c}\n    observed: {seen[:5] if seen else 'nothing'}")
+            hit = [d for d in seen if d == want or d.split(":", 1)[0] == kind or (kind == "fatal" and d.startswith("race"))]
+            if hit:
+                print(f"replay: reproduced: {hit[0]}")
+                print(f"VIOLATION property={prop} replay={path}")
+                return 1
+    print("replay: not reproduced in 3 attempts on the current tree")
+    return 0
 
 
 PROPS = {"C17": dict(
@@ -368,6 +424,7 @@ PROPS = {"C17": dict(
     components=["hreg"],
     level="proof",
     custom=custom,
+    replay=replay,
     trusted_base=TB_COMMON + [
         "lock-fact extractor go/cmd/extract/lockfacts.go (go/ast, syntactic; fails on shapes it does not understand; regenerated every run): "
         "that a Go method performs the sections / accesses / calls the table row says",
